@@ -125,7 +125,8 @@ func lemma_cntDel_lt(q vcSeq[bool], lo int, k int, n int) {
 // loadMailbox is the only place the snapshot is taken.
 //@ func (*Session).loadMailbox
 //@   requires spec_valid(s)
-//@   modifies s.logger, s.messages, s.retain, s.msgCount
+//@   modifies s.logger, s.messages, s.retain, s.msgCount, ghost_nlisted(s.store), ghost_listedBoxes(s.store)
+//@   ensures[ownMailbox C13] storage.Ghost_nlisted(s.store) == old(storage.Ghost_nlisted(s.store)) + 1 && storage.Ghost_listedAt(s.store, old(storage.Ghost_nlisted(s.store))) == s.user
 //@   ensures len(s.retain) == len(s.messages) && s.msgCount == len(s.messages)
 //@   ensures s.msgCount == spec_cnt(vcElemsOf(s.retain), vcOff(s.retain), len(s.retain))
 //@   ensures forall k int :: { s.messages[k] } 0 <= k && k < len(s.messages) ==> s.messages[k] != nil
@@ -173,7 +174,7 @@ func ghost_nwrites(w io.Writer) int { panic("ghost") }
 // AUTHORIZATION: the snapshot is taken exactly here (PASS / APOP), nothing is removed.
 //@ func (*Session).authorizationHandler
 //@   requires I_pop(s) && s.state == AUTHORIZATION
-//@   modifies s.state, s.user, s.conn, s.reader, s.Server.tlsState, s.logger, s.messages, s.retain, s.msgCount, s.sendError, ghost_nwrites(s.conn)
+//@   modifies s.state, s.user, s.conn, s.reader, s.Server.tlsState, s.logger, s.messages, s.retain, s.msgCount, s.sendError, ghost_nwrites(s.conn), ghost_nlisted(s.store), ghost_listedBoxes(s.store)
 //@   ensures I_pop(s)
 //@   ensures[noRemoval] storage.Ghost_nremoved(s.store) == old(storage.Ghost_nremoved(s.store))
 //@   ensures[login] s.state == TRANSACTION ==> (cmd == "PASS" || cmd == "APOP") && s.user != "" || s.state == TRANSACTION && cmd == "APOP"
